@@ -228,6 +228,13 @@ def playback(scratch, h, failed_checks=()):
                 if dn and (dn in msg or msg in dn or (dn.startswith('indexoutofbounds') and msg.startswith('indexoutofbounds'))):
                     same = True
             res['outcome'] = 'reproduces' if same and msg else 'diverges'
+            # a harness that replaces a real callee for CBMC (anything but the assert_invariant! shim) runs DIFFERENT code natively:
+            # its native failure is not evidence about the counterexample, so it is never counted as a replay
+            attrs = re.search(r'((?:\s*#\[[^\n]*\]\n)+)\s*fn %s\b' % re.escape(h), open(os.path.join(KANI_DIR, hf)).read())
+            stubs = [a for a in re.findall(r'#\[kani::stub\(([^,]+),', attrs.group(1) if attrs else '') if '__assert_invariant_impl' not in a]
+            if stubs and res['outcome'] == 'reproduces':
+                res['outcome'] = 'diverges'
+                res['detail'] += ' (not counted: the harness stubs %s for CBMC and playback runs the real one)' % ', '.join(x.strip() for x in stubs)
         elif re.search(r'test result: ok\. 1 passed', out):
             res['outcome'] = 'passes'
             res['detail'] = 'the recorded values do not fail natively (the harness stubs a callee that runs for real in playback, or the failure is a Kani-only check)'
